@@ -267,7 +267,23 @@ func TestVF_Concurrent(t *testing.T) {
 			defer wg.Done()
 			b := &vfConcBrowser{email: fmt.Sprintf("user%d@example.com", i), jar: map[string]string{}}
 			for n := 0; time.Now().Before(stop); n++ {
+				if i%5 == 0 { // a returning browser whose session holds an expired ID token and no refresh token: the expired-token
+					// path (session saved, cleared, login restarted) runs concurrently with everybody else's logins
+					old := vfMintToken(c2.w.prov.issuer, vfClientID, vfTokSpec{Sub: "old", Email: b.email, ExpIn: -600, IatIn: -4000}, vfNewRand(uint64(i*1000+n)))
+					if cookies, err := vfMintSession(vfSessionManager(c2.t), true, 0, b.email, old.Token, "", "", "", "", ""); err == nil {
+						b.jar = map[string]string{}
+						for _, ck := range cookies {
+							if ck.MaxAge >= 0 {
+								b.jar[ck.Name] = ck.Value
+							}
+						}
+						if r := c2.get(b, fmt.Sprintf("/u%d/returning/%d", i, n)); r.Code == 200 {
+							c2.violate("%s: a session holding an expired ID token and no refresh token was forwarded", b.email)
+						}
+					}
+				}
 				if !c2.login(b, fmt.Sprintf("/u%d/start/%d", i, n)) {
+					c2.violate("%s: a complete login (gated request, provider, callback) did not end in a session although the provider is healthy", b.email)
 					return
 				}
 				for j := 0; j < 4 && time.Now().Before(stop); j++ {
